@@ -355,7 +355,7 @@ func (r *run8) run(bi int, beh []map[string]any, ss, pushes bool, res *vh.Result
 		if connected && !disc && !closed {
 			violate("C08", "connected-after-shutdown:"+phase, fmt.Sprintf("connection %d completed its connect handshake %s (connect callback ran, transport open, Hub().NumClients() = %d) and nothing closes it", c.n, map[string]string{"during": "while Node.Shutdown was closing the connections it had found", "after": "after Node.Shutdown had returned"}[phase], r.env.Node.Hub().NumClients()))
 		} else {
-			drift("C08", fmt.Sprintf("connection %d was not refused as the model says, but it is not connected either: callbacks %v closed=%v", c.n, k, closed))
+			drift("", fmt.Sprintf("connection %d was not refused as the model says, but it is not connected either: callbacks %v closed=%v", c.n, k, closed))
 		}
 	}
 	for si := 1; si < len(beh) && completed == 1; si++ {
@@ -382,7 +382,7 @@ func (r *run8) run(bi int, beh []map[string]any, ss, pushes bool, res *vh.Result
 			r.sch.setOwner(fmt.Sprintf("new%d", cn))
 			conn, err := r.env.NewConnT("", t)
 			if err != nil {
-				drift("C08", "NewConn: "+err.Error())
+				drift("", "NewConn: "+err.Error())
 				continue
 			}
 			c.conn, c.id = conn, conn.Client.ID()
@@ -398,10 +398,10 @@ func (r *run8) run(bi int, beh []map[string]any, ss, pushes bool, res *vh.Result
 			}(c)
 			if mrd() == "oc" {
 				if !c.gOC.WaitArrived(gateWait) {
-					drift("C08", "the connect command did not reach the OnConnecting handler")
+					drift("", "the connect command did not reach the OnConnecting handler")
 				}
 			} else if !waitDone(c.reader, gateWait) {
-				drift("C08", "the connect command on a closed connection did not return")
+				drift("", "the connect command on a closed connection did not return")
 			}
 		case "ConnAuth", "ConnReply":
 			refused := act == "ConnAuth" && mrd() == "done" && len(vh.List(tlaSeq(st["spawned"], cn))) > 0 && (shutBegun || shutDone)
@@ -443,13 +443,13 @@ func (r *run8) run(bi int, beh []map[string]any, ss, pushes bool, res *vh.Result
 				}
 			}
 			if at != mrd() {
-				drift("C08", fmt.Sprintf("after %s the reader of connection %d is at %q, the model says %q", act, cn, at, mrd()))
+				drift("", fmt.Sprintf("after %s the reader of connection %d is at %q, the model says %q", act, cn, at, mrd()))
 			}
 			nontrivial = true
 		case "ConnDone":
 			c.gCN.Release()
 			if !waitDone(c.reader, gateWait) {
-				drift("C08", "the connect command did not return after the OnConnect handler")
+				drift("", "the connect command did not return after the OnConnect handler")
 			}
 		case "Subscribe":
 			id := c.conn.NextID() + 10
@@ -475,7 +475,7 @@ func (r *run8) run(bi int, beh []map[string]any, ss, pushes bool, res *vh.Result
 			c.gAL = g
 			c.mu.Unlock()
 			if _, n, ok := r.sch.fire(c.id); !ok {
-				drift("C08", fmt.Sprintf("expected one armed timer for connection %d, found %d", cn, n))
+				drift("", fmt.Sprintf("expected one armed timer for connection %d, found %d", cn, n))
 				continue
 			}
 			arrived := false
@@ -489,7 +489,7 @@ func (r *run8) run(bi int, beh []map[string]any, ss, pushes bool, res *vh.Result
 				}
 			}
 			if !arrived && !g.WaitArrived(gateWait) {
-				drift("C08", "the presence tick did not reach the OnAlive handler")
+				drift("", "the presence tick did not reach the OnAlive handler")
 			}
 			nontrivial = true
 		case "TickEnd":
@@ -515,7 +515,7 @@ func (r *run8) run(bi int, beh []map[string]any, ss, pushes bool, res *vh.Result
 							continue
 						}
 					}
-					drift("C08", fmt.Sprintf("close(%d) of connection %d did not reach Transport.Close", vh.Int(step["code"]), cn))
+					drift("", fmt.Sprintf("close(%d) of connection %d did not reach Transport.Close", vh.Int(step["code"]), cn))
 				}
 				nontrivial = true
 			} else {
@@ -536,7 +536,7 @@ func (r *run8) run(bi int, beh []map[string]any, ss, pushes bool, res *vh.Result
 			select {
 			case <-r.env.Node.NotifyShutdown():
 			case <-time.After(gateWait):
-				drift("C08", "Node.Shutdown did not set the shutdown flag")
+				drift("", "Node.Shutdown did not set the shutdown flag")
 			}
 			// ... and the hub snapshot must be taken before the behaviour goes on: with an empty hub Shutdown returns,
 			// otherwise the closers it spawned show up at their gates (the next steps wait for them) - unless they
@@ -549,7 +549,7 @@ func (r *run8) run(bi int, beh []map[string]any, ss, pushes bool, res *vh.Result
 			}
 			if empty {
 				if !waitDone(r.shut, gateWait) {
-					drift("C08", "Node.Shutdown did not return although no connection was registered")
+					drift("", "Node.Shutdown did not return although no connection was registered")
 				}
 			} else {
 				time.Sleep(30 * time.Millisecond)
@@ -557,7 +557,7 @@ func (r *run8) run(bi int, beh []map[string]any, ss, pushes bool, res *vh.Result
 			shutBegun = true
 		case "ShutDone":
 			if !waitDone(r.shut, gateWait) {
-				drift("C08", "Node.Shutdown did not return although every connection it found is closed")
+				drift("", "Node.Shutdown did not return although every connection it found is closed")
 				continue
 			}
 			shutDone = true
@@ -584,14 +584,14 @@ func (r *run8) run(bi int, beh []map[string]any, ss, pushes bool, res *vh.Result
 					}
 				}
 			} else if _, err := r.env.Node.Publish(r.ssch, data); err != nil {
-				drift("C11", "publish: "+err.Error())
+				drift("", "publish: "+err.Error())
 			}
 			if vh.Bool(step["window"]) {
 				time.Sleep(500 * time.Microsecond) // nothing to wait for: the push must NOT show up before the reply
 			}
 			nontrivial = true
 		default:
-			drift("C08", "unknown action "+act)
+			drift("", "unknown action "+act)
 		}
 		if completed == 0 || ended {
 			break
@@ -688,7 +688,7 @@ func (r *run8) run(bi int, beh []map[string]any, ss, pushes bool, res *vh.Result
 				mk = append(mk, vh.Str(x))
 			}
 			if k := cc.cbLog(); vh.J(k) != vh.J(mk) && !(len(k) == 0 && len(mk) == 0) {
-				drift("C08", fmt.Sprintf("callback log of connection %d differs after %s: real %v, model %v", cc.n, vh.J(step), k, mk))
+				drift("", fmt.Sprintf("callback log of connection %d differs after %s: real %v, model %v", cc.n, vh.J(step), k, mk))
 				break
 			}
 			var mo []f36
